@@ -186,7 +186,7 @@ def nf(ev, t, depth=0):
         idx = t.a[1]
         args = t.a[2]
         selfv = args[idx]
-        if n in ("Vec::<T, A>::extend_from_slice", "Extend::extend", "Vec::<T, A>::append", "Vec::<T, A>::extend_from_within") and idx == 0 and len(args) == 2:
+        if n in ("Vec::<T, A>::extend_from_slice", "Extend::extend", "Vec::<T, A>::append", "Vec::<T, A>::extend_from_within", "Write::write_all") and idx == 0 and len(args) == 2:
             return nf(ev, selfv, depth + 1) + nf(ev, args[1], depth + 1)
         if n == "Vec::<T, A>::push" and idx == 0 and len(args) == 2:
             c = _const_int(args[1])
